@@ -417,7 +417,7 @@ def algo (sl : Slot) (verb : String) (args : List String) : Option (List String)
     let s ← nat? s; let pops ← natList pops
     if !wgNonNeg w then pure ["R !negative-weight"] else
     match findGeodesicsDijkstra und w s pops with
-    | .ok (some r) => pure (["R ok", s!"P dist: {joinOptNat r.dist} | pred: {joinNat r.pred} | scans: {pops.length} | VE: {w.g.size} {w.g.sumLen}"]
+    | .ok (some r) => pure (["R ok", s!"P dist: {joinOptNat r.dist} | pred: {joinNat r.pred} | scans: n={pops.length} | VE: {w.g.size} {w.g.sumLen}"]
         ++ (if r.allMin then [] else ["T a popped vertex was not a minimum of the worklist (heap order violated)"]))
     | .ok none => pure ["R !illegal-pop-order"]
     | .threw e => pure ["R !" ++ e.name]
